@@ -275,247 +275,137 @@ func (cm *CMap) parseBfRange(content string) error {
 	return nil
 }
 
-// parseBfRangeSection parses a single beginbfrange/endbfrange section
+// bfToken is one lexical element of a bfrange section: a hex string, "[" or "]".
+type bfToken struct {
+	hex   string // contents of <...> when isHex
+	isHex bool
+	punct byte // '[' or ']' otherwise
+}
+
+// tokenizeBfRange splits a bfrange section into hex strings and brackets.
+// Tokens may be separated by any white space (LF, CR, CRLF, spaces) or by
+// nothing at all, so the section is tokenized rather than read line by line.
+func tokenizeBfRange(section string) []bfToken {
+	var toks []bfToken
+	for i := 0; i < len(section); i++ {
+		switch section[i] {
+		case '<':
+			end := strings.IndexByte(section[i:], '>')
+			if end == -1 {
+				return toks
+			}
+			toks = append(toks, bfToken{hex: section[i+1 : i+end], isHex: true})
+			i += end
+		case '[', ']':
+			toks = append(toks, bfToken{punct: section[i]})
+		}
+	}
+	return toks
+}
+
+// parseBfRangeSection parses a single beginbfrange/endbfrange section.
+// Entries are "<lo> <hi> <dst>" or "<lo> <hi> [<dst1> <dst2> ...]".
 func (cm *CMap) parseBfRangeSection(section string) error {
-	// Check for array format first (contains "[")
-	// Array format needs special handling as it can span multiple entries
-	if strings.Contains(section, "[") {
-		return cm.parseBfRangeSectionWithArrays(section)
-	}
+	toks := tokenizeBfRange(section)
 
-	// Simple format: <start> <end> <unicode> triplets
-	// Handle CMaps without newlines by processing all hex strings in groups of 3
-	hexStrings := make([]string, 0)
-	startIdx := 0
-	for {
-		idx := strings.Index(section[startIdx:], "<")
-		if idx == -1 {
-			break
-		}
-		idx += startIdx
-		endIdx := strings.Index(section[idx:], ">")
-		if endIdx == -1 {
-			break
-		}
-		endIdx += idx
-
-		hexStr := section[idx+1 : endIdx]
-		hexStrings = append(hexStrings, hexStr)
-		startIdx = endIdx + 1
-	}
-
-	// Process hex strings in groups of 3: (start, end, unicode)
-	for i := 0; i+2 < len(hexStrings); i += 3 {
-		startHex := hexStrings[i]
-		endHex := hexStrings[i+1]
-		dstHex := hexStrings[i+2]
-
-		if startHex == "" || endHex == "" || dstHex == "" {
+	i := 0
+	for i+2 < len(toks) {
+		if !toks[i].isHex || !toks[i+1].isHex {
+			i++
 			continue
 		}
+		startHex, endHex := toks[i].hex, toks[i+1].hex
+		i += 2
 
 		// Track actual byte width from source code hex length
 		srcHexLen := len(startHex)
 		if srcHexLen%2 != 0 {
 			srcHexLen++
 		}
-		srcByteWidth := srcHexLen / 2
-		if srcByteWidth > cm.actualByteWidth {
+		if srcByteWidth := srcHexLen / 2; srcHexLen > 0 && srcByteWidth > cm.actualByteWidth {
 			cm.actualByteWidth = srcByteWidth
 		}
 
 		startCode, err1 := parseHexToUint32(startHex)
 		endCode, err2 := parseHexToUint32(endHex)
-		dstUnicode, err3 := parseHexToUint32(dstHex)
+		valid := startHex != "" && endHex != "" && err1 == nil && err2 == nil
 
-		if err1 != nil || err2 != nil || err3 != nil {
-			continue
-		}
-
-		// Add range mapping
-		cm.rangeMappings = append(cm.rangeMappings, CMapRange{
-			StartCode:    startCode,
-			EndCode:      endCode,
-			StartUnicode: dstUnicode,
-		})
-	}
-
-	return nil
-}
-
-// parseBfRangeSectionWithArrays handles bfrange sections that contain array format entries
-func (cm *CMap) parseBfRangeSectionWithArrays(section string) error {
-	// Split into lines for array handling (arrays may span lines)
-	lines := strings.Split(section, "\n")
-
-	i := 0
-	for i < len(lines) {
-		line := strings.TrimSpace(lines[i])
-		if line == "" {
+		if !toks[i].isHex && toks[i].punct == '[' {
+			// Array form: one destination string per code
 			i++
-			continue
-		}
-
-		// Check if this is an array format
-		if strings.Contains(line, "[") {
-			// Array format: <start> <end> [<u1> <u2> ...]
-			// This may span multiple lines
-			fullLine := line
-			for !strings.Contains(fullLine, "]") && i+1 < len(lines) {
+			currentCode := startCode
+			for i < len(toks) && !(!toks[i].isHex && toks[i].punct == ']') {
+				if toks[i].isHex && toks[i].hex != "" && valid && currentCode <= endCode {
+					if unicode, err := hexToUnicode(toks[i].hex); err == nil {
+						cm.charMappings[currentCode] = unicode
+					}
+				}
+				if toks[i].isHex {
+					currentCode++
+				}
 				i++
-				fullLine += " " + strings.TrimSpace(lines[i])
 			}
-			cm.parseBfRangeArray(fullLine)
-			i++
+			i++ // skip ']'
 			continue
 		}
 
-		// Simple format on this line: <start> <end> <unicode>
-		hexStrings := make([]string, 0)
-		startIdx := 0
-		for {
-			idx := strings.Index(line[startIdx:], "<")
-			if idx == -1 {
-				break
-			}
-			idx += startIdx
-			endIdx := strings.Index(line[idx:], ">")
-			if endIdx == -1 {
-				break
-			}
-			endIdx += idx
-
-			hexStr := line[idx+1 : endIdx]
-			hexStrings = append(hexStrings, hexStr)
-			startIdx = endIdx + 1
+		if !toks[i].isHex {
+			continue // stray ']'
+		}
+		dstHex := toks[i].hex
+		i++
+		if !valid || dstHex == "" {
+			continue
 		}
 
-		// Process in groups of 3
-		for j := 0; j+2 < len(hexStrings); j += 3 {
-			startHex := hexStrings[j]
-			endHex := hexStrings[j+1]
-			dstHex := hexStrings[j+2]
-
-			if startHex == "" || endHex == "" || dstHex == "" {
+		// A destination of one UTF-16 unit is kept as a compact range
+		if len(dstHex) <= 4 {
+			dstUnicode, err := parseHexToUint32(dstHex)
+			if err != nil {
 				continue
 			}
-
-			srcHexLen := len(startHex)
-			if srcHexLen%2 != 0 {
-				srcHexLen++
-			}
-			srcByteWidth := srcHexLen / 2
-			if srcByteWidth > cm.actualByteWidth {
-				cm.actualByteWidth = srcByteWidth
-			}
-
-			startCode, err1 := parseHexToUint32(startHex)
-			endCode, err2 := parseHexToUint32(endHex)
-			dstUnicode, err3 := parseHexToUint32(dstHex)
-
-			if err1 != nil || err2 != nil || err3 != nil {
-				continue
-			}
-
 			cm.rangeMappings = append(cm.rangeMappings, CMapRange{
 				StartCode:    startCode,
 				EndCode:      endCode,
 				StartUnicode: dstUnicode,
 			})
+			continue
 		}
 
-		i++
+		// A longer destination (surrogate pair, ligature expansion) is a UTF-16BE
+		// string whose last unit is incremented for each successive code
+		cm.expandStringRange(startCode, endCode, dstHex)
 	}
 
 	return nil
 }
 
-// parseBfRangeArray parses array format: <start> <end> [<u1> <u2> ...]
-func (cm *CMap) parseBfRangeArray(line string) {
-	// Extract start and end codes
-	// Find hex strings for start/end
-	hexStrings := make([]string, 0)
-	startIdx := 0
-	// Only look before the '['
-	bracketIdx := strings.Index(line, "[")
-	if bracketIdx == -1 {
+// expandStringRange maps startCode..endCode to dstHex with its last UTF-16
+// unit incremented by the offset of the code within the range.
+func (cm *CMap) expandStringRange(startCode, endCode uint32, dstHex string) {
+	if len(dstHex)%2 != 0 {
+		dstHex = "0" + dstHex
+	}
+	base, err := hex.DecodeString(dstHex)
+	if err != nil || len(base) < 2 || len(base)%2 != 0 || endCode < startCode || endCode-startCode > 0xFFFF {
 		return
 	}
-
-	preBracket := line[:bracketIdx]
-	for {
-		idx := strings.Index(preBracket[startIdx:], "<")
-		if idx == -1 {
+	last := uint32(base[len(base)-2])<<8 | uint32(base[len(base)-1])
+	for code := startCode; code <= endCode; code++ {
+		unit := last + (code - startCode)
+		if unit > 0xFFFF {
 			break
 		}
-		idx += startIdx
-		endIdx := strings.Index(preBracket[idx:], ">")
-		if endIdx == -1 {
+		dst := make([]byte, len(base))
+		copy(dst, base)
+		dst[len(dst)-2] = byte(unit >> 8)
+		dst[len(dst)-1] = byte(unit)
+		if unicode, err := decodeUTF16BE(dst); err == nil {
+			cm.charMappings[code] = unicode
+		}
+		if code == 0xFFFFFFFF {
 			break
 		}
-		endIdx += idx
-
-		hexStr := preBracket[idx+1 : endIdx]
-		hexStrings = append(hexStrings, hexStr)
-		startIdx = endIdx + 1
-	}
-
-	if len(hexStrings) < 2 {
-		return
-	}
-
-	startHex := hexStrings[0]
-	endHex := hexStrings[1]
-
-	startCode, err1 := parseHexToUint32(startHex)
-	endCode, err2 := parseHexToUint32(endHex)
-
-	if err1 != nil || err2 != nil {
-		return
-	}
-
-	// Extract array content
-	arrayStart := strings.Index(line, "[")
-	arrayEnd := strings.Index(line, "]")
-	if arrayStart == -1 || arrayEnd == -1 {
-		return
-	}
-
-	arrayContent := line[arrayStart+1 : arrayEnd]
-
-	// Parse hex strings in array content
-	arrayHexStrings := make([]string, 0)
-	startIdx = 0
-	for {
-		idx := strings.Index(arrayContent[startIdx:], "<")
-		if idx == -1 {
-			break
-		}
-		idx += startIdx
-		endIdx := strings.Index(arrayContent[idx:], ">")
-		if endIdx == -1 {
-			break
-		}
-		endIdx += idx
-
-		hexStr := arrayContent[idx+1 : endIdx]
-		arrayHexStrings = append(arrayHexStrings, hexStr)
-		startIdx = endIdx + 1
-	}
-
-	// Map each character code to its Unicode value
-	currentCode := startCode
-	for _, hex := range arrayHexStrings {
-		if hex == "" {
-			continue
-		}
-
-		unicode, err := hexToUnicode(hex)
-		if err == nil && currentCode <= endCode {
-			cm.charMappings[currentCode] = unicode
-		}
-
-		currentCode++
 	}
 }
 
